@@ -96,6 +96,42 @@ def navigate_family(ck, quick, case0):
     return events, info, case
 
 
+def where_family(ck, quick, rng, case0):
+    """which file an inclusion function reads: the path is relative to the file that CONTAINS the call - the file of an
+    instruction line for what is written in its operands (also inside a sub-rule operand), the rule's file for a
+    production, the function's file for a `#fn` body, the constant's file for a constant.  Every directory holds a
+    `data.bin` with a byte of its own; the byte that arrives names the file that was read, and Navigate says which
+    one it had to be."""
+    dirs = {"": 0x41, "cpu/": 0x42, "lib/": 0x43}
+    files = {"cpu/rules.asm": ("#subruledef imm\n{\n    #{v} => v`8\n}\n#ruledef\n{\n    ld {i: imm} => 0x10 @ i\n    ld2 {v} => 0x11 @ v`8\n"
+                               "    ldr => 0x20 @ incbin(\"data.bin\")\n    ldm {v} => asm { ld2 {v} }\n}\n"),
+             "lib/fns.asm": "#fn f() => incbin(\"data.bin\")\nK = incbin(\"data.bin\")\n"}
+    for d, b in dirs.items():
+        files[d + "data.bin"] = [b]
+    uses = [("operand-subrule", "main.asm", "ld #incbin(\"data.bin\")", 1), ("operand", "main.asm", "ld2 incbin(\"data.bin\")", 1),
+            ("production", "cpu/rules.asm", "ldr", 1), ("operand-through-macro", "main.asm", "ldm incbin(\"data.bin\")", 1),
+            ("function-body", "lib/fns.asm", "#d f()", 0), ("constant", "lib/fns.asm", "#d K", 0), ("data", "main.asm", "#d incbin(\"data.bin\")", 0)]
+    jobs = []
+    for kind, cur, line, skip in uses:
+        fs = dict(files)
+        fs["main.asm"] = "#include \"cpu/rules.asm\"\n#include \"lib/fns.asm\"\n" + line + "\n"
+        jobs.append({"mode": "asm", "files": fs, "roots": ["main.asm"], "want": {"events": False, "spans": False, "messages": False}})
+    results = common.run_jobs(jobs, ck.wd + "/jobs-where")
+    ck.evaluations += len(jobs)
+    events, info = [], {}
+    case = case0
+    byname = {v: k + "data.bin" for k, v in dirs.items()}
+    for (kind, cur, line, skip), r in zip(uses, results):
+        bits = r.get("bits") or ""
+        byts = [int(bits[i:i + 8], 2) for i in range(0, len(bits) - 7, 8)]
+        got = byname.get(byts[skip]) if (not r.get("error") and len(byts) > skip) else None
+        events.append({"ev": "navigate", "case": case, "cur": chars(cur), "rel": chars("data.bin"), "ok": got is not None, "res": chars(got or "")})
+        info[case] = {"family": "where", "kind": kind, "cur": cur, "line": line, "read": got, "bytes": byts}
+        ck.nontrivial_add(("where", kind))
+        case += 1
+    return events, info, case
+
+
 # ---------------------------------------------------------------------------
 # (ii) inclusion graphs
 
@@ -460,6 +496,7 @@ def run_c14(ck):
     counts = {}
     case = 0
     for name, fam in (("navigate", lambda c: navigate_family(ck, quick, c)),
+                      ("where", lambda c: where_family(ck, quick, rng, c)),
                       ("expand", lambda c: expand_family(ck, quick, rng, c)),
                       ("incrange", lambda c: incrange_family(ck, quick, rng, c)),
                       ("expand-real", lambda c: expand_real_family(ck, quick, rng, c)),
@@ -481,6 +518,8 @@ def run_c14(ck):
             # (witness for the known finding F65: an #include line inside an #if arm)
             if info[c].get("guarded"):
                 tag += ":include-inside-if"
+            if info[c]["family"] == "where":
+                tag += ":" + info[c]["kind"]
             groups.setdefault((info[c]["family"], tag), []).append(c)
     by_case = {e["case"]: e for e in events}
     for (family, tag), cs in sorted(groups.items()):
